@@ -6,6 +6,7 @@
    holds s c   : c owns the mutex (from its successful CAS / the hand-over to the end of its unlock)
    waiting s c : c has published a request that was not granted yet. *)
 From Cocls Require Import Base BaseProofs MutexDefs MutexProofs MutexSched MutexObs.
+From Cocls Require MutexOwnDefs MutexOwnProofs.
 Local Open Scope Z_scope.
 
 (* at most one owner in every reachable state *)
@@ -85,6 +86,20 @@ Theorem c07_overlap_never : forall ops s, reachable ops s ->
   (forall t x, In x (tq (gthr s t)) -> incs (gtask s x) = false).
 Proof. exact overlap_never. Qed.
 Print Assumptions c07_overlap_never.
+
+(* ownership objects (mutex.h:62-103; sequential model MutexOwnDefs: two mutexes, four ownership slots, callback-style
+   waiters that store their grant into a slot from inside unlock()): after any sequence of try_lock / callback
+   request / release / destruction / move assignment / move construction, at most one ownership object holds a
+   mutex, and a mutex is locked exactly when one does *)
+Theorem c07_ownership_unique : forall s i j m, MutexOwnProofs.wreach s ->
+  MutexOwnDefs.gslot s i = Some m -> MutexOwnDefs.gslot s j = Some m -> i = j.
+Proof. exact MutexOwnProofs.own_unique. Qed.
+Print Assumptions c07_ownership_unique.
+
+Theorem c07_locked_iff_owned : forall s m, MutexOwnProofs.wreach s ->
+  (MutexOwnDefs.locked (MutexOwnDefs.gmx s m) = true <-> exists j, MutexOwnDefs.gslot s j = Some m).
+Proof. exact MutexOwnProofs.own_locked_iff. Qed.
+Print Assumptions c07_locked_iff_owned.
 
 (* non-vacuity: coroutine 0 owns the mutex, coroutine 1 has published and its thread is still inside
    await_suspend, plain thread 2 has published too *)
